@@ -26,7 +26,9 @@ def _is_tell_on_append(K, expr, frame):
 class TargetMachine(Machine):
     """R2: in the write loops the target pack is re-selected before every object, with the locked handle's *current*
     position as known size, and a different answer leaves the loop before anything is written.
-    State = (consulted, guarded, fresh vars, rewind vars)."""
+    State = (consulted, guarded, fresh vars, rewind vars).  Runs on the graph with exception edges: a write interrupted by an
+    exception that a handler tolerates invalidates remembered positions as well."""
+    edge_kinds = ('n', 'e')
 
     def __init__(self, ctx, g, rule='C13.R2', rule3='C13.R3'):
         self.ctx = ctx
